@@ -100,6 +100,9 @@ func (c12Check) Units(tier string, seed int64) []Unit {
 	add(c12Args{Facet: "bytes", Proto: 3}, "bytes-resp3")
 	for s := 0; s < 8; s++ {
 		add(c12Args{Facet: "seg", Shard: s, Shards: 8}, fmt.Sprintf("seg-shard%d", s))
+		if s == 0 {
+			add(c12Args{Facet: "stall"}, "stalled-connection")
+		}
 	}
 	add(c12Args{Facet: "junk"}, "junk")
 	return us
@@ -154,6 +157,9 @@ func (c12Check) Run(u Unit, w *Worker) UnitResult {
 		c12ArgsFacet(a, w, &res)
 	case "bytes":
 		c12BytesFacet(a, w, &res)
+	case "stall":
+		// one connection stops reading: every other connection must keep being served (shared with C18)
+		c18Stalled("C12", w, &res)
 	case "seg":
 		c12SegFacet(a, w, &res)
 	case "junk":
@@ -200,6 +206,13 @@ func c12ArgsFacet(a c12Args, w *Worker, res *UnitResult) {
 					all = append(all, cmd(append([]string{"HELLO", pv}, v...)...))
 				}
 			}
+		}
+		// COMMAND LIST FILTERBY <MODULE|ACLCAT|PATTERN> <value>, COMMAND DOCS/COUNT with arguments
+		for _, f := range []string{"MODULE", "ACLCAT", "PATTERN", "BOGUS"} {
+			for _, v := range []string{"generic", "read", "*", "z*", "[a", "", "x\r\ny"} {
+				all = append(all, cmd("COMMAND", "LIST", "FILTERBY", f, v))
+			}
+			all = append(all, cmd("COMMAND", "LIST", "FILTERBY", f))
 		}
 		var mine []Action
 		for i, x := range all {
